@@ -75,7 +75,7 @@ def thorough_matrix():
             for k in range(2 if not ae else 1):
                 f = flavours[1 + (i % (len(flavours) - 1))]
                 n = npairs[(i * 5 + combo) % len(npairs)]
-                out["%s-l%d%d%d%s-%d" % (f, pocca, pocma, pocs, "ae" if ae else "", k)] = cfg(f, 1, n[0], n[1], pocca, pocma, pocs, ae, construct=(i % 5 == 0))
+                out["%s-l%d%d%d%s-%d" % (f, pocca, pocma, pocs, "ae" if ae else "", k)] = cfg(f, 1, n[0], n[1], pocca, pocma, pocs, ae, construct=int(i % 5 == 0))
                 i += 1
     return out
 
@@ -742,7 +742,8 @@ def check_C17(tier, seed):
     names = ["%s/%s%s" % (cc, std, "/noconcepts" if nc else "") for cc, std, nc in builds]
     # (a) per-feature acceptance probes: every build must accept what any other build accepts
     FEATURES = {1: "same-width integral sources through raw pointers / std::vector iterators", 2: "same-width integral sources through small_vector iterators",
-                3: "different-width integral / enum sources", 4: "pointer conversions through raw pointers / std::vector iterators", 5: "pointer conversions through small_vector iterators"}
+                3: "different-width integral / enum sources", 4: "pointer conversions through raw pointers / std::vector iterators", 5: "pointer conversions through small_vector iterators",
+                6: "move-only element type with potentially-throwing move operations and std::allocator (reserve, push_back, insert, erase, resize, cross-capacity move assignment, swap)"}
     pspecs, pidx = [], []
     for bi, (cc, std, nc) in enumerate(builds):
         for f in FEATURES:
